@@ -429,7 +429,12 @@ class Ctx:
               "coverage": cov, "assumptions": self.assumptions,
               "wall_s": round(time.time() - self.t0, 2), "violations": len(self.violations)}
         os.makedirs(os.path.join(VERIF, "evidence"), exist_ok=True)
-        json.dump(ev, open(os.path.join(VERIF, "evidence", self.pid + ".json"), "w"), indent=1, default=str)
+        if os.path.realpath(REPO) == "/repo":
+            ev_path = os.path.join(VERIF, "evidence", self.pid + ".json")
+        else:
+            # a run against a scratch copy (seeded change) must not overwrite the evidence of /repo
+            ev_path = os.path.join(self.gen, "evidence_scratch_copy.json")
+        json.dump(ev, open(ev_path, "w"), indent=1, default=str)
         for k, t in self.known_hits:
             print("KNOWN-FINDING: property=%s %s [%s]" % (self.pid, t, k))
         for v in self.violations:
